@@ -36,6 +36,7 @@ class Check:
     notes: List[str] = field(default_factory=list)
     errors: List[str] = field(default_factory=list)  # analysis errors (exit 2)
     started: float = field(default_factory=time.time)
+    model_evaluations: int = 0  # abstract runs of an extracted model (each compared with a reference)
     _seen: Dict[Any, int] = field(default_factory=dict)
 
     def rule(self, rid: str, text: str, floor: int = 1) -> None:
@@ -193,13 +194,16 @@ def write_evidence(
                 "'discharged' counts those that have it. Only the structural clauses named in DESIGN.md "
                 "are decided, not the behavioural statement as a whole."
             ),
-            "evaluations": len(obs),
-            "distinct_nontrivial": len(distinct),
+            "evaluations": len(obs) + chk.model_evaluations,
+            "distinct_nontrivial": len(distinct) + chk.model_evaluations,
             "rule": (
                 "obligations are enumerated from the source by each rule (one per matching construct); "
                 "distinct = distinct (rule, construct key); non-trivial = the obligation required a "
-                "shape/flow/table check beyond locating the anchor"
+                "shape/flow/table check beyond locating the anchor. Where a rule interprets an extracted "
+                "model (sa/minterp.py) every distinct abstract input compared with the reference counts as "
+                "one evaluation; they are aggregated into one obligation per outcome class."
             ),
+            "model_evaluations": chk.model_evaluations,
             "obligations": len(obs),
             "discharged": sum(1 for o in obs if o.ok),
             "known_findings_matched": [
